@@ -184,6 +184,10 @@ broadcast proof fn lemma_locate_unique<V>(s: XMapping<V>, x: Val, x1: Result<Key
 spec fn findable<V>(s: XMapping<V>, x: Val) -> bool {
     exists|h: u64, i: usize| #[trigger] locate_post(s, x, Ok::<Result<KeyLocation, ErrV>, RuntimeViolation>(Ok(KeyLocation::Found((h, i)))))
 }
+/// the key is absent: locate's postcondition admits a clean answer that is not Found
+spec fn absent<V>(s: XMapping<V>, x: Val) -> bool {
+    exists|loc: KeyLocation| #[trigger] locate_post(s, x, Ok::<Result<KeyLocation, ErrV>, RuntimeViolation>(Ok(loc))) && !(loc is Found)
+}
 /// the table t1 is t0 with the i-th entry of bucket h removed
 spec fn removed_at<V>(t0: Map<u64, Vec<(Val, V)>>, t1: Map<u64, Vec<(Val, V)>>, h: u64, i: int) -> bool {
     &&& t0.contains_key(h) && 0 <= i < t0[h]@.len()
